@@ -11,6 +11,7 @@
 
 import re
 
+from . import options
 from .smtlib import *
 from .mutator_utils import Simplification
 
@@ -54,6 +55,11 @@ class EliminateVariable:
                     continue
                 if is_defined_fun(c):
                     # Avoid cycles with smtlib.InlineDefinedFuns
+                    continue
+                if is_var(c) and (c.data > t.data) != (
+                        options.args().replace_by_variable_mode == 'inc'):
+                    # Avoid cycles with core.ReplaceByVariable, which
+                    # replaces a variable by a larger (smaller) one
                     continue
                 if t in nodes.dfs(c):
                     # Avoid cycles (for example with core.ReplaceByChild)
